@@ -1497,6 +1497,20 @@ def discharge(vc, timeout_ms=20000):
         return DISCHARGED, "cvc5", "", None, time.time() - t0
     if st == "sat":
         return REFUTED, "cvc5", vc.get("note", "") + " (cvc5 sat; model not extracted)", None, time.time() - t0
+    # both gave up: queries that normally take well under a second occasionally run away (search-order instability); retry the same
+    # query with other random seeds before calling it undecided. Only `unsat` / `sat` answers are used, so this cannot change a verdict.
+    if not vc.get("no_retry") and not vc.get("no_recheck"):
+        for seed in (7, 1234, 99):
+            s3 = z3.Solver()
+            s3.set("timeout", min(timeout_ms, 15000))
+            s3.set("random_seed", seed)
+            s3.add(*(s.assertions()))
+            r3 = s3.check()
+            if r3 == z3.unsat:
+                return DISCHARGED, f"z3(retry seed {seed})", "", None, time.time() - t0
+            if r3 == z3.sat:
+                m = s3.model()
+                return REFUTED, "z3", vc.get("note", ""), {str(d): str(m[d]) for d in m.decls()}, time.time() - t0
     return UNDECIDED, "z3+cvc5", f"z3: {s.reason_unknown()}; cvc5: {detail}", None, time.time() - t0
 
 
